@@ -8,6 +8,7 @@ by a jump to the call's target).  Functions with several call sites (shared help
 without such splits `expand` is the identity.
 """
 import copy
+import re
 
 from .ir import Fn
 from .query import call_sites
@@ -107,3 +108,174 @@ def expanded_fns(prog, fns):
     for g in ex:
         gone |= set(getattr(g, "inlined", []))
     return [g for g in ex if g.name not in gone]
+
+
+# ---------------------------------------------------------------------------------------------------------------------------------
+# std combinators with closures, written out (`opt.map(|x| ..)` == `match opt { Some(x) => Some(..), None => None }`)
+_OPT = ("std::option::Option", {"0": "None", "1": "Some"})
+_RES = ("std::result::Result", {"0": "Ok", "1": "Err"})
+COMBINATORS = {
+    # name suffix: (adt, variant that runs the closure, what the closure gets, how the result is built)
+    "option::Option::<T>::map": (_OPT, "Some", "payload", "wrap:Some"),
+    "option::Option::<T>::and_then": (_OPT, "Some", "payload", "is"),
+    "option::Option::<T>::filter": (_OPT, "Some", "payload-ref", "keep-if"),
+    "option::Option::<T>::unwrap_or_else": (_OPT, "None", "nothing", "is|unwrap:Some"),
+    "option::Option::<T>::ok_or_else": (_OPT, "None", "nothing", "wrapres:Err|rewrap:Ok"),
+    "option::Option::<T>::is_some_and": (_OPT, "Some", "payload", "is|const:false"),
+    "result::Result::<T, E>::map": (_RES, "Ok", "payload", "wrap:Ok"),
+    "result::Result::<T, E>::map_err": (_RES, "Err", "payload", "wrap:Err"),
+    "result::Result::<T, E>::and_then": (_RES, "Ok", "payload", "is"),
+    "result::Result::<T, E>::unwrap_or_else": (_RES, "Err", "payload", "is|unwrap:Ok"),
+}
+
+
+def _payload_ty(ty, adt, variant):
+    m = re.match(r"^std::(?:option::Option|result::Result)<(.*)>$", ty or "")
+    if not m:
+        return "?"
+    body = m.group(1)
+    if adt.endswith("Option"):
+        return body
+    depth, cut = 0, None
+    for i, ch in enumerate(body):
+        if ch in "<([{":
+            depth += 1
+        elif ch in ">)]}":
+            depth -= 1
+        elif ch == "," and depth == 0:
+            cut = i
+            break
+    if cut is None:
+        return "?"
+    return body[:cut].strip() if variant == "Ok" else body[cut + 1:].strip()
+
+
+def desugar(prog, fn, max_sites=24):
+    """-> Fn in which calls of Option / Result combinators taking a closure created in the same body are written out as the `match` they
+    stand for, with the closure's body folded in (the same object when there is nothing to do).  Exact by the documented semantics of
+    the combinators (core::option / core::result)."""
+    from .normalize import inline_call
+    crate = fn.crate
+    fns = prog.crates[crate]["fns"]
+    fj = None
+    done = 0
+    skip = set()
+    cur = fn
+    while done < max_sites:
+        site = None
+        for b, c in call_sites(cur):
+            if b in skip:
+                continue
+            cal = c.get("callee") or ""
+            spec = next((v for k, v in COMBINATORS.items() if cal.endswith(k)), None)
+            if spec is None or len(c["args"]) != 2 or c.get("target") is None:
+                continue
+            opj = c["args"][0].get("mv") or c["args"][0].get("cp")
+            cpj = c["args"][1].get("mv") or c["args"][1].get("cp")
+            if opj is None or cpj is None or cpj.get("p"):
+                skip.add(b)
+                continue
+            cname = None
+            for blk in cur.blocks:
+                for st in blk.stmts:
+                    if "a" in st and st["a"]["l"] == cpj["l"] and not st["a"].get("p") and (st.get("rv") or {}).get("agg") == "closure":
+                        cname = st["rv"]["closure"]
+            cj = fns.get(cname) if cname else None
+            if cj is None or not cj.get("blocks"):
+                skip.add(b)
+                continue
+            site = (b, c, spec, opj, cpj, cname, cj)
+            break
+        if site is None:
+            break
+        b, c, ((adt, variants), run_var, gets, build), opj, cpj, cname, cj = site
+        fj = copy.deepcopy(cur.j)
+        ln = fj["blocks"][b]["t"].get("ln")
+        call = fj["blocks"][b]["t"]["call"]
+        dest, tgt = call["dest"], call["target"]
+        oty = call["argtys"][0]
+        other_var = [v for v in variants.values() if v != run_var][0]
+
+        def new_local(ty):
+            fj["locals"].append({"ty": ty, "name": None})
+            return len(fj["locals"]) - 1
+
+        def new_block(stmts, term):
+            fj["blocks"].append({"s": stmts, "t": dict(term, ln=ln)})
+            return len(fj["blocks"]) - 1
+        d = new_local("isize")
+        pty = _payload_ty(oty, adt, run_var)
+        oty_other = _payload_ty(oty, adt, other_var)
+        r = new_local(cj["locals"][0]["ty"])
+        ety = cj["locals"][1]["ty"]
+        e = new_local(ety)
+        o_place = copy.deepcopy(opj)
+
+        def payload(var, ty):
+            p_ = copy.deepcopy(o_place)
+            p_["p"] = list(p_.get("p") or []) + [{"dc": var}, {"f": "0", "i": 0, "ty": ty}]
+            return p_
+
+        def agg(var, fields):
+            return {"agg": "adt", "adt": adt, "variant": var, "fnames": ["0"] if fields else [], "fields": fields}
+        env_stmt = {"a": {"l": e}, "rv": ({"ref": {"l": cpj["l"]}, "mut": ety.startswith("&mut")} if ety.startswith("&") else {"use": {"mv": {"l": cpj["l"]}}}), "ln": ln}
+        # the arm that runs the closure
+        pre = [env_stmt]
+        args = [{"mv": {"l": e}}]
+        if gets == "payload":
+            x = new_local(pty)
+            pre.append({"a": {"l": x}, "rv": {"use": {"mv": payload(run_var, pty)}}, "ln": ln})
+            args.append({"mv": {"l": x}})
+        elif gets == "payload-ref":
+            x = new_local("&" + pty)
+            pre.append({"a": {"l": x}, "rv": {"ref": payload(run_var, pty), "mut": False}, "ln": ln})
+            args.append({"mv": {"l": x}})
+        after = new_block([], {"goto": tgt})
+        run = new_block(pre, {"call": {"decl": cname, "callee": cname, "substs": [], "rsubsts": [], "via": "direct", "args": args,
+                                       "argtys": [ety] + ([pty] if len(args) > 1 else []), "dest": {"l": r}, "target": after}})
+        parts = build.split("|")
+        first = parts[0]
+        A = fj["blocks"][after]
+        if first.startswith("wrap:"):
+            A["s"].append({"a": copy.deepcopy(dest), "rv": agg(first[5:], [{"mv": {"l": r}}]), "ln": ln})
+        elif first.startswith("wrapres:"):
+            A["s"].append({"a": copy.deepcopy(dest), "rv": {"agg": "adt", "adt": _RES[0], "variant": first[8:], "fnames": ["0"], "fields": [{"mv": {"l": r}}]}, "ln": ln})
+        elif first == "is":
+            A["s"].append({"a": copy.deepcopy(dest), "rv": {"use": {"mv": {"l": r}}}, "ln": ln})
+        elif first == "keep-if":
+            keep = new_block([{"a": copy.deepcopy(dest), "rv": {"use": {"mv": copy.deepcopy(o_place)}}, "ln": ln}], {"goto": tgt})
+            drop = new_block([{"a": copy.deepcopy(dest), "rv": agg(other_var, []), "ln": ln}], {"goto": tgt})
+            A["t"] = {"switch": {"mv": {"l": r}}, "sty": "bool", "targets": [["0", drop]], "otherwise": keep, "ln": ln}
+        # the other arm
+        ost = []
+        second = parts[1] if len(parts) > 1 else None
+        if second is None:
+            if first.startswith("wrap:") and adt == _RES[0]:
+                y = new_local(oty_other)
+                ost.append({"a": {"l": y}, "rv": {"use": {"mv": payload(other_var, oty_other)}}, "ln": ln})
+                ost.append({"a": copy.deepcopy(dest), "rv": agg(other_var, [{"mv": {"l": y}}]), "ln": ln})
+            elif adt == _RES[0]:
+                y = new_local(oty_other)
+                ost.append({"a": {"l": y}, "rv": {"use": {"mv": payload(other_var, oty_other)}}, "ln": ln})
+                ost.append({"a": copy.deepcopy(dest), "rv": agg(other_var, [{"mv": {"l": y}}]), "ln": ln})
+            else:
+                ost.append({"a": copy.deepcopy(dest), "rv": agg(other_var, []), "ln": ln})
+        elif second.startswith("unwrap:"):
+            ost.append({"a": copy.deepcopy(dest), "rv": {"use": {"mv": payload(second[7:], oty_other)}}, "ln": ln})
+        elif second.startswith("rewrap:"):
+            y = new_local(oty_other)
+            ost.append({"a": {"l": y}, "rv": {"use": {"mv": payload(other_var, oty_other)}}, "ln": ln})
+            ost.append({"a": copy.deepcopy(dest), "rv": {"agg": "adt", "adt": _RES[0], "variant": second[7:], "fnames": ["0"], "fields": [{"mv": {"l": y}}]}, "ln": ln})
+        elif second.startswith("const:"):
+            ost.append({"a": copy.deepcopy(dest), "rv": {"use": {"k": {"bool": second[6:] == "true"}}}, "ln": ln})
+        other = new_block(ost, {"goto": tgt})
+        vi = {v: k for k, v in variants.items()}
+        fj["blocks"][b]["s"].append({"a": {"l": d}, "rv": {"discr": copy.deepcopy(o_place), "adt": adt, "variants": dict(variants)}, "ln": ln})
+        fj["blocks"][b]["t"] = {"switch": {"mv": {"l": d}}, "sty": "isize", "targets": [[vi[run_var], run]], "otherwise": other,
+                                "discr_of": copy.deepcopy(o_place), "adt": adt, "variants": dict(variants), "ln": ln}
+        inline_call(fj, run, cj, cname)
+        cur = Fn(fn.name, fj, crate)
+        done += 1
+    if done:
+        cur.desugared = done
+    return cur
